@@ -24,10 +24,7 @@ func (e *OrderedEdges) Len() int {
 	if e.idx >= len(e.edges) {
 		return 0
 	}
-	if e.idx <= 0 {
-		return len(e.edges)
-	}
-	return len(e.edges[e.idx:])
+	return len(e.edges[e.idx+1:])
 }
 
 // Next returns whether the next call of Edge will return a valid edge.
@@ -55,10 +52,7 @@ func (e *OrderedEdges) EdgeSlice() []graph.Edge {
 	if e.idx >= len(e.edges) {
 		return nil
 	}
-	idx := e.idx
-	if idx == -1 {
-		idx = 0
-	}
+	idx := e.idx + 1
 	e.idx = len(e.edges)
 	return e.edges[idx:]
 }
@@ -86,10 +80,7 @@ func (e *OrderedWeightedEdges) Len() int {
 	if e.idx >= len(e.edges) {
 		return 0
 	}
-	if e.idx <= 0 {
-		return len(e.edges)
-	}
-	return len(e.edges[e.idx:])
+	return len(e.edges[e.idx+1:])
 }
 
 // Next returns whether the next call of WeightedEdge will return a valid edge.
@@ -117,10 +108,7 @@ func (e *OrderedWeightedEdges) WeightedEdgeSlice() []graph.WeightedEdge {
 	if e.idx >= len(e.edges) {
 		return nil
 	}
-	idx := e.idx
-	if idx == -1 {
-		idx = 0
-	}
+	idx := e.idx + 1
 	e.idx = len(e.edges)
 	return e.edges[idx:]
 }
